@@ -466,6 +466,7 @@ SCOPE_SHAPES_EXTRA = [
     ("holes_18_runs", "i16", [-40, -39] + [3 * i for i in range(17)]),
     ("gapless_70_u64", "u64", list(range(5, 75))),
     ("holes_40_i128_negative_start", "i128", list(range(-20, 0)) + list(range(5, 25))),
+    ("gapless_300_u16", "u16", list(range(300))),
     ("full_u8", "u8", list(range(256))),
     ("full_i8", "i8", list(range(-128, 128))),
 ]
